@@ -38,3 +38,94 @@ def load_ocr_engine(path, chars, H=16, seed=0, batch_size=8, **kw):
     j, net = make_ocr_engine_dir(path, chars, H=H, seed=seed, **kw)
     eng = PytorchEngineLineOCR(j, torch.device('cpu'), batch_size=batch_size)
     return eng, net
+
+
+def make_lstm_lm(letters, seed, dim=8, double=True):
+    """A real brnolm LanguageModel (2-layer LSTM + full softmax) with seeded random weights: history dependent."""
+    import torch
+    from brnolm.language_models.language_model import LanguageModel
+    from brnolm.language_models.lstm_model import LSTMLanguageModel
+    from brnolm.language_models.decoders import FullSoftmaxDecoder
+    torch.manual_seed(seed)
+    vocab = {'<unk>': 0, '</s>': 1}
+    for i, c in enumerate(letters):
+        vocab[c] = i + 2
+    enc = torch.nn.Embedding(len(vocab), dim)
+    model = LSTMLanguageModel(enc, dim, dim, 2, dropout=0.0)
+    dec = FullSoftmaxDecoder(dim, len(vocab), init_range=2.0)
+    for p in model.parameters():
+        p.data.uniform_(-1.5, 1.5)
+    lm = LanguageModel(model, dec, vocab)
+    if double:
+        lm = lm.double()
+    lm._unused_prefix_len = 2
+    return lm
+
+
+def lstm_lm_score(lm, seq_ids, h0=None, eos=False):
+    """the model's own score of a transcript (decoder symbol indices), walking the torch modules one symbol at a time"""
+    import torch
+    with torch.no_grad():
+        if h0 is None:
+            h = lm.model.init_hidden(1)
+            _, h = lm.model(torch.tensor([[1]]), h)
+        else:
+            h = h0
+        tot = 0.0
+        for s in seq_ids:
+            y = lm.decoder(h[0][-1])[0]
+            tot += y[s + 2].item()
+            _, h = lm.model(torch.tensor([[s + 2]]), h)
+        if eos:
+            tot += lm.decoder(h[0][-1])[0][1].item()
+    return tot, h
+
+
+class HashLM:
+    """Toy LM implementing the interface the decoder uses; its state is a hash of the whole prefix (numpy int64 array),
+    the next-symbol distribution is a pseudo-random function of that hash."""
+    MOD = 1000000007
+
+    def __init__(self, nchars, seed, temp=2.0):
+        self.nchars, self.seed, self.temp = nchars, int(seed), temp
+        self._rows = {}
+        self.calls = {'advance': 0, 'log_probs': 0}
+
+    def row(self, v):
+        v = int(v)
+        r = self._rows.get(v)
+        if r is None:
+            x = np.random.default_rng([self.seed, v]).normal(size=self.nchars + 1) * self.temp
+            r = x - np.logaddexp.reduce(x)
+            self._rows[v] = r
+        return r
+
+    def initial_h(self, n):
+        return np.full((n,), 7, dtype=np.int64)
+
+    def state_after(self, prefix, h0=7):
+        h = int(h0)
+        for c in prefix:
+            h = (h * 31 + int(c) + 1) % self.MOD
+        return h
+
+    def advance_h0(self, x, h):
+        self.calls['advance'] += 1
+        return (np.asarray(h, dtype=np.int64) * 31 + np.asarray(x, dtype=np.int64) + 1) % self.MOD
+
+    def log_probs(self, h):
+        self.calls['log_probs'] += 1
+        return np.array([self.row(v)[:self.nchars] for v in np.asarray(h).reshape(-1)])
+
+    def eos_scores(self, h):
+        return np.array([self.row(v)[self.nchars] for v in np.asarray(h).reshape(-1)])
+
+    def score(self, prefix, h0=7, eos=False):
+        h = int(h0)
+        tot = 0.0
+        for c in prefix:
+            tot += self.row(h)[int(c)]
+            h = (h * 31 + int(c) + 1) % self.MOD
+        if eos:
+            tot += self.row(h)[self.nchars]
+        return tot, h
